@@ -42,6 +42,8 @@ type Partial struct {
 	Samples  []any            `json:"samples"`
 	Notes    []string         `json:"notes"`
 	Capped   bool             `json:"capped"`
+	// Unreproducible: violating schedules that did not reproduce (see vrt.Unreproducible)
+	Unreproducible []string `json:"unreproducible,omitempty"`
 }
 
 // Check is the context handed to a property's run function.
@@ -391,6 +393,7 @@ func Main(prop, level string, assumptions []string, run func(c *Check), replay R
 	if *worker >= 0 {
 		c.Worker, c.NWorkers = *worker, *nworkers
 		run(c)
+		c.P.Unreproducible = vrt.Unreproducible
 		raw, _ := json.Marshal(&c.P)
 		if err := os.WriteFile(*partial, raw, 0o644); err != nil {
 			vrt.MachineryFault("write partial: %v", err)
@@ -483,6 +486,7 @@ func Main(prop, level string, assumptions []string, run func(c *Check), replay R
 			}
 		}
 		merged.Capped = merged.Capped || p.Capped
+		merged.Unreproducible = append(merged.Unreproducible, p.Unreproducible...)
 	}
 
 	// Pruning validation: the unbounded search with happens-before state-key pruning
@@ -533,6 +537,21 @@ func Main(prop, level string, assumptions []string, run func(c *Check), replay R
 		}
 		nviol++
 		fmt.Printf("VIOLATION property=%s replay=%s\n  signature: %s\n  %s\n", prop, path, f.Sig, strings.ReplaceAll(firstLines(f.Detail, 40), "\n", "\n  "))
+	}
+
+	// violating schedules that did not reproduce are never a verdict: next to reproducible
+	// violations they are a remark, on their own they make the run a machinery fault
+	if len(merged.Unreproducible) > 0 {
+		for i, u := range merged.Unreproducible {
+			if i < 3 {
+				fmt.Printf("NOT-REPRODUCIBLE (not a verdict): %s\n", firstLines(u, 3))
+			}
+		}
+		if nviol == 0 {
+			fmt.Printf("MACHINERY-FAULT (not a verdict): %d violating schedule(s) did not reproduce and nothing else was found\n", len(merged.Unreproducible))
+			os.RemoveAll(tmp)
+			os.Exit(2)
+		}
 	}
 
 	// evidence
@@ -606,6 +625,9 @@ func Main(prop, level string, assumptions []string, run func(c *Check), replay R
 	}
 	cov["counters"] = merged.Counters
 	cov["known_findings_seen"] = knownSeen
+	if len(merged.Unreproducible) > 0 {
+		cov["violating_schedules_that_did_not_reproduce"] = len(merged.Unreproducible)
+	}
 	cov["race_build"] = vrt.RaceBuild
 	cov["workers"] = n
 	if len(merged.Notes) > 0 {
